@@ -22,66 +22,66 @@ import (
 
 // Message type numbers (one number space shared by core and modules).
 const (
-	TError            = 0
-	TSyncClock        = 1
-	TSessionState     = 2
-	TJoinReq          = 3
-	TJoinResp         = 4
-	TJoinBcast        = 5
-	TLeaveBcast       = 7
-	TEntityAddReq     = 8
-	TEntityAddResp    = 9
-	TEntityAddBcast   = 10
-	TEntityDelReq     = 11
-	TEntityDelResp    = 12
-	TEntityDelBcast   = 13
-	TPoseUpdate       = 14
-	TPoseBcast        = 15
-	TCustom           = 16
-	TCustomBcast      = 17
-	TTypeAddReq       = 18
-	TTypeAddResp      = 19
-	TGetNameReq       = 20
-	TGetNameResp      = 21
-	TGetIDReq         = 22
-	TGetIDResp        = 23
-	TCompAddReq       = 24
-	TCompAddResp      = 25
-	TCompAddBcast     = 26
-	TCompDelReq       = 27
-	TCompDelResp      = 28
-	TCompDelBcast     = 29
-	TCompUpdate       = 30
-	TCompUpdateBcast  = 31
-	TCompListReq      = 32
-	TCompListResp     = 33
-	TSubReq           = 34
-	TSubResp          = 35
-	TUnsubReq         = 36
-	TUnsubResp        = 37
-	TPingReq          = 38
-	TPingResp         = 39
-	TReceiptReq       = 40
-	TReceiptResp      = 41
-	TSignedLatReq     = 42
-	TSignedLatResp    = 43
-	TVikjaState       = 100
-	TActionReq        = 101
-	TActionResp       = 102
-	TActionBcast      = 103
-	TOdalState        = 200
-	TAssetAddReq      = 201
-	TAssetAddResp     = 202
-	TAssetAddBcast    = 203
-	TQuadSample       = 300
-	TGroundPlaneReq   = 301
-	TGroundPlaneResp  = 302
-	TRegionReq        = 303
-	TRegionResp       = 304
-	TDebugInfoReq     = 305
-	TDebugInfoResp    = 306
-	TClosed           = -1 // pseudo event: the connection ended
-	TUndecodable      = -2 // pseudo event: frame the harness could not decode
+	TError           = 0
+	TSyncClock       = 1
+	TSessionState    = 2
+	TJoinReq         = 3
+	TJoinResp        = 4
+	TJoinBcast       = 5
+	TLeaveBcast      = 7
+	TEntityAddReq    = 8
+	TEntityAddResp   = 9
+	TEntityAddBcast  = 10
+	TEntityDelReq    = 11
+	TEntityDelResp   = 12
+	TEntityDelBcast  = 13
+	TPoseUpdate      = 14
+	TPoseBcast       = 15
+	TCustom          = 16
+	TCustomBcast     = 17
+	TTypeAddReq      = 18
+	TTypeAddResp     = 19
+	TGetNameReq      = 20
+	TGetNameResp     = 21
+	TGetIDReq        = 22
+	TGetIDResp       = 23
+	TCompAddReq      = 24
+	TCompAddResp     = 25
+	TCompAddBcast    = 26
+	TCompDelReq      = 27
+	TCompDelResp     = 28
+	TCompDelBcast    = 29
+	TCompUpdate      = 30
+	TCompUpdateBcast = 31
+	TCompListReq     = 32
+	TCompListResp    = 33
+	TSubReq          = 34
+	TSubResp         = 35
+	TUnsubReq        = 36
+	TUnsubResp       = 37
+	TPingReq         = 38
+	TPingResp        = 39
+	TReceiptReq      = 40
+	TReceiptResp     = 41
+	TSignedLatReq    = 42
+	TSignedLatResp   = 43
+	TVikjaState      = 100
+	TActionReq       = 101
+	TActionResp      = 102
+	TActionBcast     = 103
+	TOdalState       = 200
+	TAssetAddReq     = 201
+	TAssetAddResp    = 202
+	TAssetAddBcast   = 203
+	TQuadSample      = 300
+	TGroundPlaneReq  = 301
+	TGroundPlaneResp = 302
+	TRegionReq       = 303
+	TRegionResp      = 304
+	TDebugInfoReq    = 305
+	TDebugInfoResp   = 306
+	TClosed          = -1 // pseudo event: the connection ended
+	TUndecodable     = -2 // pseudo event: frame the harness could not decode
 )
 
 var newByType = map[int32]func() proto.Message{
@@ -204,12 +204,13 @@ type Client struct {
 	ws  *websocket.Conn
 	nc  net.Conn
 
-	mu      sync.Mutex
-	cond    *sync.Cond
-	inbox   []*Event
-	closed  bool
-	nextReq uint32
-	wmu     sync.Mutex
+	mu       sync.Mutex
+	cond     *sync.Cond
+	inbox    []*Event
+	closed   bool
+	nextReq  uint32
+	nextPing uint32 // ids of barrier pings: a range disjoint from request ids
+	wmu      sync.Mutex
 
 	Timeout time.Duration
 	// All events ever received, in order (the per-connection log).
@@ -357,7 +358,10 @@ func (c *Client) Drain() []*Event {
 // messages are removed). If the connection ends first, the events up to and
 // including the CLOSED pseudo event are returned with ErrClosed.
 func (c *Client) Barrier() ([]*Event, error) {
-	id := c.NextReqID()
+	c.mu.Lock()
+	c.nextPing++
+	id := 0x40000000 + c.nextPing
+	c.mu.Unlock()
 	err := c.Send(&hagallpb.Request{Type: hagallpb.MsgType_MSG_TYPE_PING_REQUEST, Timestamp: timestamppb.Now(), RequestId: id})
 	if err != nil {
 		// the write may fail because the peer is already gone: the reader
